@@ -303,6 +303,12 @@ func panicSite(stack string) string {
 	return "unknown"
 }
 
+var journalCases = os.Getenv("VERIF_JOURNAL_CASES") != ""
+
+func journalPath(test string) string {
+	return strings.TrimSuffix(replayOutPath(test), ".json") + ".current.json"
+}
+
 // Check runs the property under rapid.
 func Check[C any](t *testing.T, prop string, gen func(*rapid.T) C, run func(C, *Obs) *Failure) {
 	t.Helper()
@@ -316,6 +322,14 @@ func Check[C any](t *testing.T, prop string, gen func(*rapid.T) C, run func(C, *
 			panic(fmt.Sprintf("harness: cannot marshal case: %v", err))
 		}
 		o := &Obs{}
+		if journalCases {
+			// checks that run regatta code on goroutines the harness does not own (raft apply loop, gRPC handlers) cannot rely on
+			// panic recovery: the case is written out BEFORE it runs, so that the driver can re-execute it if the process dies
+			rf := ReplayFile{Property: prop, Test: t.Name(), Signature: prop + "/process-death", Message: "the test process died while executing this case", Case: cj}
+			if b, err := json.Marshal(rf); err == nil {
+				_ = os.WriteFile(journalPath(t.Name()), b, 0o644)
+			}
+		}
 		f := SafeRun(prop, run, c, o)
 		if f != nil && IsKnown(f.Signature) {
 			o.KnownHit(f.Signature)
